@@ -143,7 +143,7 @@ pub fn take<R: FileReader>(cfg: &Cfg, reader: &R) -> Snap {
         out_nodes.push(NodeSnap {
             kind: kind_of(&pn).to_string(),
             text: n.raw_text(),
-            file: reader.get_filename(n.file()).unwrap_or_else(|| "<unknown>".into()),
+            file: reader.get_filename(n.file()).map_or_else(|| "<unknown>".into(), |f| crate::lspreader::strip_root(&f)),
             line: range.start().zero_idx_line(),
             col: range.start().zero_idx_column(),
             end_col: range.end().zero_idx_column(),
